@@ -25,9 +25,9 @@ import (
 
 // PtrProg is a generated program.
 type PtrProg struct {
-	Main    string         // main.go: types, cases, main()
-	Stub    string         // helpers for the analysed build (empty bodies, no imports)
-	Native  string         // helpers for the native build (logging)
+	Main    string // main.go: types, cases, main()
+	Stub    string // helpers for the analysed build (empty bodies, no imports)
+	Native  string // helpers for the native build (logging)
 	NCases  int
 	NFuncs  int            // number of enter ids
 	NSites  int            // number of call-site ids
@@ -42,10 +42,13 @@ type PtrOpts struct {
 	Funcs    int  // named functions per case
 	NoAppend bool // leave out append/copy (first stage of the criterion)
 	NoGo     bool
+	NoStruct bool     // leave out struct VALUES (copies of structs that contain pointers)
+	Focus    []string // round-trip kinds to concentrate on (targeted search after a criterion failure)
 }
 
 type pvars struct {
 	P, SL, M, MK, C, F, I, PP, E, AV, BV []string
+	SV                                   []string // local variables of the struct type V (values, not pointers)
 }
 
 func (e *pvars) clone() *pvars {
@@ -61,23 +64,33 @@ func (e *pvars) clone() *pvars {
 	c.E = append([]string(nil), e.E...)
 	c.AV = append([]string(nil), e.AV...)
 	c.BV = append([]string(nil), e.BV...)
+	c.SV = append([]string(nil), e.SV...)
 	return &c
 }
 
 type pgen struct {
-	r      *rand.Rand
-	o      PtrOpts
-	b      strings.Builder
-	nv     int // variable counter (per program: unique names everywhere)
-	fid    int
-	site   int
-	probe  int
-	cond   int
-	stats  map[string]int
-	caseNo int
+	r        *rand.Rand
+	o        PtrOpts
+	b        strings.Builder
+	nv       int // variable counter (per program: unique names everywhere)
+	fid      int
+	site     int
+	probe    int
+	cond     int
+	stats    map[string]int
+	caseNo   int
 	callable []string // named functions of the current case callable from the body being generated
-	depth  int
-	late   []string // closures / methods emitted after the current function
+	depth    int
+	late     []string // closures / methods emitted after the current function
+}
+
+func (g *pgen) focusHas(k string) int {
+	for _, f := range g.o.Focus {
+		if f == k {
+			return 1
+		}
+	}
+	return 0
 }
 
 func (g *pgen) pick(xs []string) string { return xs[g.r.Intn(len(xs))] }
@@ -121,7 +134,8 @@ func (g *pgen) stmt(ind int, e *pvars) {
 	}
 	aT, bT := fmt.Sprintf("A%d", g.caseNo), fmt.Sprintf("B%d", g.caseNo)
 	alts := []alt{
-		{8, true, func() { g.roundTrip(ind, e) }},
+		{8 + 60*min(len(g.o.Focus), 1), true, func() { g.roundTrip(ind, e) }},
+		{9 + 60*g.focusHas("struct"), !g.o.NoStruct, func() { g.structStmt(ind, e) }},
 		{3, true, func() { // allocation
 			v := g.v("p")
 			switch g.r.Intn(3) {
@@ -452,7 +466,7 @@ func (g *pgen) stmt(ind int, e *pvars) {
 			}
 			g.emit(ind, "_ = %s", v)
 			e.F = append(e.F, v)
-			if g.r.Intn(2) == 0 {
+			if g.r.Intn(4) > 0 {
 				w := g.v("p")
 				g.emit(ind, "%s := %s(%d, %s)", w, v, g.newSite(), g.pick(e.P))
 				g.count("call-dynamic")
@@ -518,6 +532,18 @@ func (g *pgen) stmt(ind int, e *pvars) {
 			v := g.v("p")
 			g.emit(ind, "%s := %s.M(%d, %s)", v, g.pick(e.I), g.newSite(), g.pick(e.P))
 			g.count("call-invoke")
+			g.defP(ind, e, v, true)
+		}},
+		{1, true, func() { // invoke on an interface field that nothing ever assigns: no callee in the call graph
+			fresh, ni, v := g.v("p"), g.v("iv"), g.v("p")
+			g.emit(ind, "%s := &S{id: %d}", fresh, g.nv)
+			g.emit(ind, "%s := %s.i", ni, fresh)
+			g.emit(ind, "%s := %s", v, g.pick(e.P))
+			g.emit(ind, "if %s != nil {", ni)
+			g.emit(ind+1, "%s = %s.M(%d, %s)", v, ni, g.newSite(), v)
+			g.emit(ind, "}")
+			g.count("call-invoke-never-assigned")
+			g.probeP(ind, fresh) // not entered into the scope: nothing may assign its fields
 			g.defP(ind, e, v, true)
 		}},
 		{4, len(e.I) > 0, func() { // type assertions
@@ -739,11 +765,335 @@ func (g *pgen) stmt(ind int, e *pvars) {
 	}
 }
 
+// defSV finishes the definition of a struct-valued variable: probe its pointer fields, enter scope.
+func (g *pgen) defSV(ind int, e *pvars, v string) {
+	for _, f := range []string{"a", "b"} {
+		g.emit(ind, "if %s.%s != nil {", v, f)
+		g.probeP(ind+1, v+"."+f)
+		g.emit(ind, "}")
+	}
+	e.SV = append(e.SV, v)
+}
+
+// structStmt emits one statement that moves a struct VALUE containing pointers (type V / W / VV).
+func (g *pgen) structStmt(ind int, e *pvars) {
+	c := g.caseNo
+	if len(e.SV) == 0 || g.r.Intn(6) == 0 {
+		v := g.v("sv")
+		switch g.r.Intn(3) {
+		case 0:
+			g.emit(ind, "%s := mkV%d(%d, %s, %s)", v, c, g.newSite(), g.pick(e.P), g.pick(e.P))
+			g.count("struct-result")
+		case 1:
+			g.emit(ind, "%s := V{a: %s, b: %s}", v, g.pick(e.P), g.pick(e.P))
+			g.count("struct-literal")
+		default:
+			g.emit(ind, "var %s V", v)
+			g.emit(ind, "%s.a = %s", v, g.pick(e.P))
+			g.count("struct-var")
+		}
+		g.defSV(ind, e, v)
+	}
+	sv := g.pick(e.SV)
+	h := g.pick(e.P)
+	switch g.r.Intn(17) {
+	case 0: // field read / write on the local
+		if g.r.Intn(2) == 0 {
+			g.emit(ind, "%s.%s = %s", sv, g.pick([]string{"a", "b"}), g.pick(e.P))
+			g.count("struct-field-set")
+		} else {
+			v := g.v("p")
+			g.emit(ind, "%s := %s.%s", v, sv, g.pick([]string{"a", "b"}))
+			g.count("struct-field-get")
+			g.defP(ind, e, v, true)
+		}
+	case 1: // struct argument
+		v := g.v("p")
+		g.emit(ind, "%s := useV%d(%d, %s)", v, c, g.newSite(), sv)
+		g.count("struct-arg")
+		g.defP(ind, e, v, true)
+	case 2: // struct argument and result
+		v := g.v("sv")
+		g.emit(ind, "%s := idV%d(%d, %s)", v, c, g.newSite(), sv)
+		g.count("struct-arg-result")
+		g.defSV(ind, e, v)
+	case 3: // struct stored in / loaded from a field of a heap object
+		v := g.v("sv")
+		g.emit(ind, "%s.v = %s", h, sv)
+		g.emit(ind, "%s := %s.v", v, g.pick([]string{h, g.pick(e.P)}))
+		g.count("struct-heap-field")
+		g.defSV(ind, e, v)
+	case 4: // nested struct
+		v := g.v("sv")
+		g.emit(ind, "%s.w = W{v: %s, z: %s}", h, sv, g.pick(e.P))
+		g.emit(ind, "%s := %s.w.v", v, h)
+		w := g.v("p")
+		g.emit(ind, "%s := %s.w.z", w, h)
+		g.count("struct-nested")
+		g.defSV(ind, e, v)
+		g.defP(ind, e, w, true)
+	case 5: // slice of structs: append, index, range
+		v := g.v("sv")
+		if !g.o.NoAppend {
+			g.emit(ind, "%s.vs = append(%s.vs, %s)", h, h, sv)
+		} else {
+			g.emit(ind, "%s.vs = []V{%s}", h, sv)
+		}
+		g.emit(ind, "%s := %s", v, sv)
+		g.emit(ind, "if len(%s.vs) > 0 {", h)
+		g.emit(ind+1, "%s = %s.vs[0]", v, h)
+		g.emit(ind, "}")
+		el := g.v("el")
+		g.emit(ind, "for _, %s := range %s.vs {", el, h)
+		g.emit(ind+1, "if %s.b != nil {", el)
+		g.probeP(ind+2, el+".b")
+		g.emit(ind+1, "}")
+		g.emit(ind, "}")
+		g.count("struct-slice")
+		g.defSV(ind, e, v)
+	case 6: // map of structs
+		v := g.v("sv")
+		g.emit(ind, "if %s.vm == nil {", h)
+		g.emit(ind+1, "%s.vm = map[int]V{}", h)
+		g.emit(ind, "}")
+		g.emit(ind, "%s.vm[3] = %s", h, sv)
+		g.emit(ind, "%s := %s.vm[3]", v, h)
+		g.count("struct-map")
+		g.defSV(ind, e, v)
+	case 7: // channel of structs
+		ch, v := g.v("cv"), g.v("sv")
+		g.emit(ind, "%s := make(chan V, 2)", ch)
+		g.emit(ind, "%s <- %s", ch, sv)
+		g.emit(ind, "%s := <-%s", v, ch)
+		g.count("struct-chan")
+		g.defSV(ind, e, v)
+	case 8: // struct in an empty interface, asserted back
+		ev, v := g.v("ev"), g.v("sv")
+		g.emit(ind, "var %s any = %s", ev, sv)
+		g.emit(ind, "%s, _ := %s.(V)", v, ev)
+		e.E = append(e.E, ev)
+		g.count("struct-any")
+		g.defSV(ind, e, v)
+	case 9: // value receiver behind an interface: invoke with a struct payload
+		iv, v := g.v("iv"), g.v("p")
+		g.emit(ind, "var %s I = VV{a: %s.a, n: %d}", iv, sv, g.nv)
+		e.I = append(e.I, iv)
+		g.emit(ind, "%s := %s.M(%d, %s)", v, iv, g.newSite(), g.pick(e.P))
+		g.count("struct-invoke")
+		g.defP(ind, e, v, true)
+	case 10: // assertion to a struct type
+		iv, v := g.v("iv"), g.v("p")
+		g.emit(ind, "var %s I = VV{a: %s, n: %d}", iv, g.pick(e.P), g.nv)
+		e.I = append(e.I, iv)
+		g.emit(ind, "%s := %s", v, g.pick(e.P))
+		g.emit(ind, "if vv, ok := %s.(VV); ok {", iv)
+		g.emit(ind+1, "%s = vv.a", v)
+		g.emit(ind, "}")
+		g.count("struct-assert")
+		g.defP(ind, e, v, true)
+	case 11: // bound method value with a struct receiver
+		vv, fn, v := g.v("vv"), g.v("fn"), g.v("p")
+		g.emit(ind, "%s := VV{a: %s.b, n: %d}", vv, sv, g.nv)
+		g.emit(ind, "%s := %s.M", fn, vv)
+		e.F = append(e.F, fn)
+		g.emit(ind, "%s := %s(%d, %s)", v, fn, g.newSite(), g.pick(e.P))
+		g.count("struct-bound-method")
+		g.defP(ind, e, v, true)
+	case 12: // pointer to a struct value, whole-struct load and store
+		pv, v := g.v("pv"), g.v("sv")
+		g.emit(ind, "%s := &%s", pv, sv)
+		g.emit(ind, "%s := *%s", v, pv)
+		if len(e.SV) > 1 {
+			g.emit(ind, "*%s = %s", pv, g.pick(e.SV))
+		}
+		g.count("struct-deref")
+		g.defSV(ind, e, v)
+	case 13: // struct-valued phi (the variable is only used as a whole)
+		v, w := g.v("sv"), g.v("p")
+		g.emit(ind, "%s := %s", v, sv)
+		g.emit(ind, "if %s {", g.newCond())
+		g.emit(ind+1, "%s = %s", v, g.pick(e.SV))
+		g.emit(ind, "}")
+		g.emit(ind, "%s := useV%d(%d, %s)", w, c, g.newSite(), v)
+		g.count("struct-phi")
+		g.defP(ind, e, w, true)
+	case 14: // value-receiver method called through a pointer and directly
+		vv, v := g.v("vv"), g.v("p")
+		g.emit(ind, "%s := &VV{a: %s, n: %d}", vv, g.pick(e.P), g.nv)
+		g.emit(ind, "%s := %s.M(%d, %s)", v, vv, g.newSite(), g.pick(e.P))
+		g.count("struct-method-via-pointer")
+		g.defP(ind, e, v, true)
+	case 15: // pointer-to-struct receiver type in an interface: wrapper (*VV).M loads the struct
+		iv, v := g.v("iv"), g.v("p")
+		g.emit(ind, "var %s I = &VV{a: %s, n: %d}", iv, g.pick(e.P), g.nv)
+		e.I = append(e.I, iv)
+		g.emit(ind, "%s := %s.M(%d, %s)", v, iv, g.newSite(), g.pick(e.P))
+		g.count("struct-invoke-ptr-wrapper")
+		g.defP(ind, e, v, true)
+	default: // go / defer with a struct argument
+		if g.depth == 0 && !g.o.NoGo {
+			g.emit(ind, "defer useV%d(%d, %s)", c, g.newSite(), sv)
+			g.count("struct-defer-arg")
+		} else {
+			v := g.v("p")
+			g.emit(ind, "%s := useV%d(%d, %s)", v, c, g.newSite(), sv)
+			g.defP(ind, e, v, true)
+		}
+	}
+}
+
+// rtKinds names the round trips (index = case number in roundTrip).
+var rtKinds = []string{"field", "map", "mapk", "chan", "slice", "array", "pp", "append", "any", "anyfield", "global", "iface",
+	"closure", "dyncall", "static", "invoke", "bound", "phi", "panic", "select", "results", "map-range", "mapk-range",
+	"funcfield", "copy", "go", "assert-iface"}
+
 // roundTrip emits a store into some kind of cell immediately followed by a load from it, so that the
 // native run is certain to observe the flow (the free-form statements above rarely hit the same cell).
 func (g *pgen) roundTrip(ind int, e *pvars) {
 	x, v := g.pick(e.P), g.v("p")
-	switch g.r.Intn(12) {
+	kind := g.r.Intn(len(rtKinds))
+	if len(g.o.Focus) > 0 && g.r.Intn(5) > 0 {
+		want := g.pick(g.o.Focus)
+		for i, k := range rtKinds {
+			if k == want {
+				kind = i
+			}
+		}
+	}
+	switch kind {
+	case 12: // closure capturing x, called at once
+		fn := g.v("fn")
+		fid := g.newFid()
+		g.emit(ind, "%s := func(site int, y *S) *S {", fn)
+		g.emit(ind+1, "enter(%d, site)", fid)
+		g.emit(ind+1, "if y == nil {")
+		g.emit(ind+2, "return y")
+		g.emit(ind+1, "}")
+		g.emit(ind+1, "return %s", x)
+		g.emit(ind, "}")
+		e.F = append(e.F, fn)
+		g.emit(ind, "%s := %s(%d, %s)", v, fn, g.newSite(), g.pick(e.P))
+		g.count("rt-closure")
+	case 13: // dynamic call of a named function that returns its argument
+		fn := g.v("fn")
+		g.emit(ind, "%s := echo%d", fn, g.caseNo)
+		g.emit(ind, "if %s {", g.newCond())
+		g.emit(ind+1, "%s = echoq%d", fn, g.caseNo)
+		g.emit(ind, "}")
+		e.F = append(e.F, fn)
+		g.emit(ind, "%s := %s(%d, %s)", v, fn, g.newSite(), x)
+		g.count("rt-dyncall")
+	case 14: // static call returning its argument
+		g.emit(ind, "%s := echo%d(%d, %s)", v, g.caseNo, g.newSite(), x)
+		g.count("rt-static")
+	case 15: // invoke: the method returns what the receiver holds
+		iv := g.v("iv")
+		g.emit(ind, "var %s I = &E%d{s: %s}", iv, g.caseNo, x)
+		e.I = append(e.I, iv)
+		g.emit(ind, "%s := %s.M(%d, %s)", v, iv, g.newSite(), g.pick(e.P))
+		g.count("rt-invoke")
+	case 16: // bound method value
+		fn := g.v("fn")
+		g.emit(ind, "%s := (&E%d{s: %s}).M", fn, g.caseNo, x)
+		e.F = append(e.F, fn)
+		g.emit(ind, "%s := %s(%d, %s)", v, fn, g.newSite(), g.pick(e.P))
+		g.count("rt-bound")
+	case 17: // phi
+		g.emit(ind, "%s := %s", v, g.pick(e.P))
+		g.emit(ind, "if %s {", g.newCond())
+		g.emit(ind+1, "%s = %s", v, x)
+		g.emit(ind, "}")
+		g.count("rt-phi")
+	case 18: // panic / recover
+		g.emit(ind, "%s := pan%d(%d, %s)", v, g.caseNo, g.newSite(), x)
+		g.count("rt-panic")
+	case 19: // select send / receive
+		c := g.v("ch")
+		g.emit(ind, "%s := make(chan *S, 2)", c)
+		g.probeC(ind, c)
+		e.C = append(e.C, c)
+		g.emit(ind, "select {")
+		g.emit(ind, "case %s <- %s:", c, x)
+		g.emit(ind, "default:")
+		g.emit(ind, "}")
+		g.emit(ind, "%s := %s", v, g.pick(e.P))
+		g.emit(ind, "select {")
+		g.emit(ind, "case %s = <-%s:", v, c)
+		g.emit(ind, "default:")
+		g.emit(ind, "}")
+		g.count("rt-select")
+	case 20: // two results
+		w := g.v("p")
+		g.emit(ind, "%s, %s := swap%d(%d, %s, %s)", v, w, g.caseNo, g.newSite(), x, g.pick(e.P))
+		g.defP(ind, e, w, true)
+		g.count("rt-results")
+	case 21: // map range
+		m := g.v("m")
+		g.emit(ind, "%s := map[int]*S{1: %s}", m, x)
+		g.probeM(ind, m)
+		e.M = append(e.M, m)
+		g.emit(ind, "%s := %s", v, g.pick(e.P))
+		g.emit(ind, "for _, el := range %s {", m)
+		g.emit(ind+1, "%s = el", v)
+		g.emit(ind, "}")
+		g.count("rt-map-range")
+	case 22: // pointer-keyed map range (keys)
+		m := g.v("mk")
+		g.emit(ind, "%s := map[*S]*S{%s: nil}", m, x)
+		g.probeMK(ind, m)
+		e.MK = append(e.MK, m)
+		g.emit(ind, "%s := %s", v, g.pick(e.P))
+		g.emit(ind, "for k := range %s {", m)
+		g.emit(ind+1, "%s = k", v)
+		g.emit(ind, "}")
+		g.count("rt-mapk-range")
+	case 23: // function value through a field
+		h := g.pick(e.P)
+		fn := g.v("fn")
+		g.emit(ind, "%s.f = echo%d", h, g.caseNo)
+		g.emit(ind, "%s := %s.f", fn, h)
+		e.F = append(e.F, fn)
+		g.emit(ind, "%s := %s(%d, %s)", v, fn, g.newSite(), x)
+		g.count("rt-funcfield")
+	case 24: // copy builtin
+		if g.o.NoAppend {
+			g.emit(ind, "%s := %s", v, x)
+			break
+		}
+		a, b := g.v("sl"), g.v("sl")
+		g.emit(ind, "%s := []*S{%s}", a, x)
+		g.emit(ind, "%s := make([]*S, 1)", b)
+		g.emit(ind, "copy(%s, %s)", b, a)
+		g.probeSL(ind, a)
+		g.probeSL(ind, b)
+		e.SL = append(e.SL, a, b)
+		g.emit(ind, "%s := %s[0]", v, b)
+		g.count("rt-copy")
+	case 25: // go statement publishing through a channel
+		if g.o.NoGo {
+			g.emit(ind, "%s := %s", v, x)
+			break
+		}
+		c := g.v("ch")
+		g.emit(ind, "%s := make(chan *S, 1)", c)
+		g.probeC(ind, c)
+		e.C = append(e.C, c)
+		g.emit(ind, "go pub%d(%d, %s, %s)", g.caseNo, g.newSite(), x, c)
+		g.emit(ind, "yield()")
+		g.emit(ind, "%s := %s", v, g.pick(e.P))
+		g.emit(ind, "if len(%s) > 0 {", c)
+		g.emit(ind+1, "%s = <-%s", v, c)
+		g.emit(ind, "}")
+		g.count("rt-go")
+	case 26: // interface to interface assertion
+		iv := g.v("iv")
+		g.emit(ind, "var %s I = &A%d{s: %s, t: %s}", iv, g.caseNo, x, x)
+		e.I = append(e.I, iv)
+		g.emit(ind, "%s := %s", v, g.pick(e.P))
+		g.emit(ind, "if j, ok := %s.(J); ok {", iv)
+		g.emit(ind+1, "%s = j.N(%d)", v, g.newSite())
+		g.emit(ind, "}")
+		g.count("rt-assert-iface")
 	case 0:
 		h := g.pick(e.P)
 		f := g.pick([]string{"p", "q"})
@@ -836,7 +1186,7 @@ func (g *pgen) roundTrip(ind int, e *pvars) {
 		g.emit(ind, "G%d = %s", g.caseNo, x)
 		g.emit(ind, "%s := G%d", v, g.caseNo)
 		g.count("rt-global")
-	default:
+	default: // 11
 		av := g.v("av")
 		g.emit(ind, "%s := &A%d{s: %s}", av, g.caseNo, x)
 		e.AV = append(e.AV, av)
@@ -911,6 +1261,59 @@ func (g *pgen) genCase(c int) {
 	g.emit(1, "x.q = y")
 	g.emit(1, "return rec%d(%d, y, x, d-1)", c, g.newSite())
 	g.emit(0, "}")
+	if !g.o.NoStruct {
+		g.emit(0, "func mkV%d(site int, x, y *S) V {", c)
+		g.emit(1, "enter(%d, site)", g.newFid())
+		g.emit(1, "return V{a: x, n: %d, b: y}", c)
+		g.emit(0, "}")
+		g.emit(0, "func useV%d(site int, v V) *S {", c)
+		g.emit(1, "enter(%d, site)", g.newFid())
+		g.emit(1, "if %s && v.a != nil {", g.newCond())
+		g.emit(2, "return v.a")
+		g.emit(1, "}")
+		g.emit(1, "if v.b != nil {")
+		g.emit(2, "return v.b")
+		g.emit(1, "}")
+		g.emit(1, "return v.a")
+		g.emit(0, "}")
+		g.emit(0, "func idV%d(site int, v V) V {", c)
+		g.emit(1, "enter(%d, site)", g.newFid())
+		g.emit(1, "w := v")
+		g.emit(1, "if %s {", g.newCond())
+		g.emit(2, "w.a = v.b")
+		g.emit(1, "}")
+		g.emit(1, "return w")
+		g.emit(0, "}")
+	}
+	// helpers of the round trips: identity functions, a receiver that returns what it holds, a publisher
+	g.emit(0, "func echo%d(site int, x *S) *S {", c)
+	g.emit(1, "enter(%d, site)", g.newFid())
+	g.emit(1, "if x == nil {")
+	g.emit(2, "return G%d", c)
+	g.emit(1, "}")
+	g.emit(1, "return x")
+	g.emit(0, "}")
+	g.emit(0, "func echoq%d(site int, x *S) *S {", c)
+	g.emit(1, "enter(%d, site)", g.newFid())
+	g.emit(1, "if x.q != nil && %s {", g.newCond())
+	g.emit(2, "return x.q")
+	g.emit(1, "}")
+	g.emit(1, "return x")
+	g.emit(0, "}")
+	g.emit(0, "type E%d struct {\n\tn int\n\ts *S\n}", c)
+	g.emit(0, "func (r *E%d) M(site int, x *S) *S {", c)
+	g.emit(1, "enter(%d, site)", g.newFid())
+	g.emit(1, "if r.s == nil {")
+	g.emit(2, "return x")
+	g.emit(1, "}")
+	g.emit(1, "return r.s")
+	g.emit(0, "}")
+	g.emit(0, "func pub%d(site int, x *S, c chan *S) {", c)
+	g.emit(1, "enter(%d, site)", g.newFid())
+	g.emit(1, "if len(c) < cap(c) {")
+	g.emit(2, "c <- x")
+	g.emit(1, "}")
+	g.emit(0, "}")
 	// panic with a pointer payload, recovered by a deferred closure that publishes it through the named result
 	g.emit(0, "func pan%d(site int, x *S) (r *S) {", c)
 	g.emit(1, "enter(%d, site)", g.newFid())
@@ -970,6 +1373,18 @@ func (g *pgen) genCase(c int) {
 	for i := 0; i < n; i++ {
 		g.stmt(1, e)
 	}
+	// every named function and method of the case is called at least once (reachable and executed)
+	for _, fn := range g.callable {
+		v := g.v("p")
+		g.emit(1, "%s := %s(%d, %s)", v, fn, g.newSite(), g.pick(e.P))
+		g.defP(1, e, v, true)
+	}
+	for _, t := range []string{"A", "B"} {
+		iv, v := g.v("iv"), g.v("p")
+		g.emit(1, "var %s I = &%s%d{s: %s}", iv, t, c, g.pick(e.P))
+		g.emit(1, "%s := %s.M(%d, %s)", v, iv, g.newSite(), g.pick(e.P))
+		g.defP(1, e, v, true)
+	}
 	g.emit(0, "}")
 }
 
@@ -988,6 +1403,40 @@ type S struct {
 	i  I
 	e  any
 	a  [2]*S
+	v  V
+	w  W
+	vs []V
+	vm map[int]V
+}
+
+// V is copied by value: two pointer leaves around a scalar.
+type V struct {
+	a *S
+	n int
+	b *S
+}
+
+// W nests a V.
+type W struct {
+	v V
+	z *S
+}
+
+// VV implements I with a value receiver: an interface holding a VV has a struct payload.
+type VV struct {
+	a *S
+	n int
+}
+
+func (r VV) M(site int, x *S) *S {
+	enter(-1, site)
+	if r.a != nil {
+		probeP(0, r.a)
+		if cond(r.n) {
+			return r.a
+		}
+	}
+	return x
 }
 
 type I interface{ M(site int, x *S) *S }
